@@ -340,3 +340,15 @@ pub fn inspect_map<V: VidOf>(m: &flurry::HashMap<Key, V, SimBuild>, g: &Guard<'_
     let d = m.verif_dump(g);
     report_of_dump(&d, hash, true)
 }
+
+/// Run-time invariant: every tree bin of the current and of the in-progress table whose bin lock
+/// is free right now must be a valid red-black tree that agrees with its traversal list.
+pub fn midrun_tree_errors<V: VidOf>(d: &Dump<'_, Key, V>, hash: HashKind) -> Vec<String> {
+    let mut out = Vec::new();
+    for t in [&d.table, &d.next].into_iter().flatten() {
+        let mut rep = Report::default();
+        walk_table(t, hash, &mut rep, false);
+        out.extend(rep.tree_errors);
+    }
+    out
+}
